@@ -344,11 +344,25 @@ static const char *short_path (const char *p) {
 }
 
 extern int __sanitizer_symbolize_pc (void *pc, const char *fmt, char *out, size_t len) __attribute__ ((weak));
+#include <dlfcn.h>
 static const char *site_func (void *site) {
+  static struct { void *site; char fn[96]; } cache[32];
+  static int ncache;
   static char b[128];
+  for (int i = 0; i < ncache; i++) if (cache[i].site == site) return cache[i].fn;
   b[0] = 0;
   if (site && __sanitizer_symbolize_pc) __sanitizer_symbolize_pc ((char *) site - 1, "%f", b, sizeof b);
-  if (!b[0] || !strcmp (b, "<null>")) snprintf (b, sizeof b, "?");
+  else if (site) {              /* uninstrumented build: ask addr2line (innermost inlined frame, like the line above) */
+    Dl_info di; unsigned long off = (unsigned long) site - 1;
+    if (dladdr (site, &di) && di.dli_fbase) off -= (unsigned long) di.dli_fbase;
+    char cmd[200]; snprintf (cmd, sizeof cmd, "addr2line -f -e /proc/%d/exe 0x%lx 2>/dev/null", (int) getpid (), off);
+    int save = fs_active; fs_active = 0;
+    FILE *f = popen (cmd, "r");
+    if (f) { if (fgets (b, sizeof b, f)) b[strcspn (b, "\n")] = 0; pclose (f); }
+    fs_active = save;
+  }
+  if (!b[0] || !strcmp (b, "<null>") || !strcmp (b, "??")) snprintf (b, sizeof b, "?");
+  if (ncache < 32) { cache[ncache].site = site; snprintf (cache[ncache].fn, sizeof cache[ncache].fn, "%s", b); ncache++; }
   return b;
 }
 /* finding key = call site (function containing the libc call) + libc function + what is wrong (+ :long when
@@ -680,7 +694,6 @@ static const char *fs_scratch_base (void) {
 }
 
 /* ------------------------------------------------------------------ main */
-#include <dlfcn.h>
 static void write_sites (const char *path) {
   void *s[1024]; const char *fn[1024];
   int n = fs_sites (s, fn, 1024);
